@@ -166,8 +166,36 @@ func VH_C16_STLString() {
 	base := d/H*H + d%H/M*M + d%M/S*S
 	diff := (int64(p)-base)*int64(fr) - f*S
 	vassert(vand(diff >= -int64(fr), diff <= int64(fr)), "C16 stl string: reads back to within 1ns of the frame instant")
-	str2 := formatDurationSTL(p, fr)
-	vassert(veqstr(str2, str), "C16 stl string: second write identical")
+	// the second write is decided on its own for every valid timecode (VH_C16_STLTimecodes): the rendering above is one
+	vreach("end")
+}
+
+// C16 STL: reading a timecode and writing it again changes nothing, for every valid 8-digit timecode hh mm ss ff
+// (fields symbolic, frame number case-split) at 25 and 30 fps, and for the 4-byte form. Together with the field
+// clauses of VH_C16_STLString / VH_C16_STLBytes (every rendering is a valid timecode) this is "a second write is
+// identical to the first".
+func VH_C16_STLTimecodes() {
+	vmode("int")
+	fr := []int{30, 25}[choose(vbound("framerates", 1, 2))]
+	hh, mm, ss := nondetInt64(0, 23), nondetInt64(0, 59), nondetInt64(0, 59)
+	ff := vconcrete(nondetInt64(0, int64(fr)-1))
+	if choose(2) == 0 {
+		str := v2(hh) + v2(mm) + v2(ss) + v2(ff)
+		p, err := parseDurationSTL(str, fr)
+		vassert(err == nil, "C16 stl timecode: reader accepts every valid timecode")
+		vreach("parsed")
+		str2 := formatDurationSTL(p, fr)
+		vassert(veqstr(str2, str), "C16 stl string: second write identical")
+	} else {
+		b := []byte{byte(hh), byte(mm), byte(ss), byte(ff)}
+		p := parseDurationSTLBytes(b, fr)
+		vreach("parsed")
+		b2 := formatDurationSTLBytes(p, fr)
+		vassert(len(b2) == 4, "C16 stl: second write has four bytes")
+		if len(b2) == 4 {
+			vassert(vand(vand(b2[0] == b[0], b2[1] == b[1]), vand(b2[2] == b[2], b2[3] == b[3])), "C16 stl: second write identical")
+		}
+	}
 	vreach("end")
 }
 
